@@ -48,7 +48,7 @@ func mustReach(from ssa.Instruction, pred func(ssa.Instruction) bool) bool {
 }
 
 func runC17(a *Analyzer, r *Results) {
-	pr := props("C17")
+	pr := props("C17", "C13")
 	fn := a.P.Func(idE2)
 	c := a.NewFCtx(fn, a.EntryEnv(fn, nil), 0)
 	rmf := This("rawmessagesfilter.RawMessageFilter")
@@ -63,8 +63,7 @@ func runC17(a *Analyzer, r *Results) {
 		}
 	}
 	if len(reads) == 0 {
-		r.Undecided = append(r.Undecided, "ConsumeCacheMessages does not read the future cache (anchor)")
-		return
+		r.Check("F6.read", pr, "the drain reads the cache with a single lookup at the key Read(State.height) (only the current height's backlog is replayed)", "ConsumeCacheMessages", a.P.Pos(fn.Pos()), false, "ConsumeCacheMessages does not look the current height up in the cache (it iterates or ignores it)", "C")
 	}
 	for _, lk := range reads {
 		key := c.Term(lk.Index)
